@@ -118,17 +118,23 @@ Definition gen_addr : G addr :=
 Definition gen_page_len : G N := gen* k := below 8 in
   if k =? 0 then gret 1 else if k =? 1 then gret 225 else if k =? 2 then gret 2 else below 12.
 (* pages end on pairwise different addresses (consecutive pages often share the IP and differ in the port only): the i-th full page ends on 10.77.(i/2).1:27015+i *)
-Fixpoint gen_pages (n : nat) (i : N) : G (list (list addr)) :=
+Fixpoint gen_pages (n : nat) (i : N) (prev : option addr) : G (list (list addr)) :=
   match n with
   | O => gret []
   | S n' => gen* len := gen_page_len in gen* body := grepeat (N.to_nat len) gen_addr in
-            gen* rest := gen_pages n' (i + 1) in
-            gret ((body ++ [(10, 77, i / 2, 1, 27015 + i)]) :: rest)
+            (* a server may list the address the request was seeded with again, first on the next page *)
+            gen* again := chance 1 3 in
+            let body' := match prev with Some a => if again then a :: body else body | None => body end in
+            let e := (10, 77, i / 2, 1, 27015 + i) in
+            gen* rest := gen_pages n' (i + 1) (Some e) in
+            gret ((body' ++ [e]) :: rest)
   end.
 Definition gen_listing : G listing :=
   gen* np := below 6 in
-  gen* pages := gen_pages (N.to_nat np) 0 in
-  gen* nb := gen_page_len in gen* before := grepeat (N.to_nat nb) gen_addr in
+  gen* pages := gen_pages (N.to_nat np) 0 None in
+  gen* nb := gen_page_len in gen* before0 := grepeat (N.to_nat nb) gen_addr in
+  gen* again := chance 1 3 in
+  let before := match rev pages with p :: _ => if again then last p zero_addr :: before0 else before0 | [] => before0 end in
   gen* tail := chance 1 3 in
   gen* na := (if tail then below 5 else gret 0) in gen* after := grepeat (N.to_nat na) gen_addr in
   gen* empty := chance 1 6 in
